@@ -1,12 +1,7 @@
 #!/bin/sh
-# tools/reseed_all.sh [name-prefix]: re-run every stored seeded change against the CURRENT checks (regression of the detectors);
-# prints one line per change and a summary of the ones no longer detected.
+# tools/reseed_all.sh [jobs]: re-run every stored seeded change against the CURRENT checks (regression of the detectors), <jobs> at
+# a time (default 4); one line per change in .work/reseed_all.log, then the names no longer detected.
 HERE="$(cd "$(dirname "$0")/.." && pwd)"; cd "$HERE"
-MISS=""
-for d in seeded/${1:-}*/; do
-  n="$(basename "$d")"
-  OUT="$(python3 tools/reseed.py "$n" 2>&1 | tail -n 1)"
-  echo "$OUT" | cut -c1-220
-  case "$OUT" in *"['"*) ;; *) MISS="$MISS $n";; esac
-done
-echo "NOT-DETECTED:$MISS"
+mkdir -p .work
+ls seeded | xargs -P "${1:-4}" -I{} sh -c 'python3 tools/reseed.py {} 2>&1 | tail -n 1 | cut -c1-220' > .work/reseed_all.log 2>&1
+echo "NOT-DETECTED: $(grep -v "\['C" .work/reseed_all.log | cut -d' ' -f1 | tr '\n' ' ')" >> .work/reseed_all.log
